@@ -53,6 +53,8 @@ def plan(tier, seed):
         out.append({'arrival': 'idle', 'how': 'quit', 'prepid': pre, 'seed': seed, 'idx': len(out)})
     # a long exclusive operation: the signal arrives many seconds before it ends
     out.append({'arrival': 'during-long-stop', 'how': 'TERM', 'seed': seed, 'idx': len(out)})
+    out.append({'arrival': 'idle', 'how': 'quit', 'late_add': True, 'seed': seed, 'idx': len(out)})
+    out.append({'arrival': 'idle', 'how': 'TERM', 'replace': True, 'seed': seed, 'idx': len(out)})
     out.append({'arrival': 'early-startup', 'how': 'TERM', 'seed': seed, 'idx': len(out)})
     out.append({'arrival': 'early-startup', 'how': 'INT', 'seed': seed, 'idx': len(out)})
     n = 0 if tier == 'quick' else 140
@@ -85,7 +87,9 @@ def build(rnd, spec):
         while len(ws) < 3:
             ws.append({'name': 'w%d' % (7 + len(ws)), 'kind': rnd.choice(['obedient', 'stubborn']), 'np': 1, 'gt': 1.0,
                        'warmup': 0})
-    return {'watchers': ws, 'global_warmup': gw, 'sockets': rnd.random() < .7,
+    return {'watchers': ws, 'global_warmup': gw, 'sockets': rnd.random() < .7 or bool(spec.get('replace')),
+            'replace': rnd.random() < .4 or bool(spec.get('replace')),
+            'late_add': (rnd.random() < .35 or bool(spec.get('late_add'))) and arrival in ('idle',),
             'pidfile': spec.get('pidfile') or rnd.choice(['none', 'config', 'cli']) if not spec.get('prepid') else 'config'}
 
 
@@ -100,7 +104,8 @@ def ini_for(d, conf):
         txt += ('[watcher:%s]\ncmd = %s\nnumprocesses = %d\ngraceful_timeout = %s\nwarmup_delay = %d\ncopy_env = True\n\n'
                 % (w['name'], live.worker_cmd(spec), w['np'], w['gt'], w['warmup']))
     if conf['sockets']:
-        txt += '[socket:u]\npath = @DIR@/managed.sock\n\n[socket:i]\nhost = 127.0.0.1\nport = 0\n\n'
+        txt += ('[socket:u]\npath = @DIR@/managed.sock\n%s\n[socket:i]\nhost = 127.0.0.1\nport = 0\n\n'
+                % ('replace = True\n' if conf.get('replace') else ''))
     return txt
 
 
@@ -119,6 +124,12 @@ def run_case(spec):
     d.ini = ini_for(d, conf).replace('@DIR@', d.dir).replace('@LOG@', d.logdir)
     with open(d.ini_path, 'w') as f:
         f.write(d.ini)
+    if conf['sockets'] and conf.get('replace'):
+        # a socket file left over by a daemon that crashed: `replace = True` says take it over
+        import socket as _s
+        st = _s.socket(_s.AF_UNIX)
+        st.bind(os.path.join(d.dir, 'managed.sock'))
+        st.close()
     pidfile = None
     if conf['pidfile'] == 'config':
         pidfile = os.path.join(d.dir, 'circus.pid')
@@ -245,6 +256,14 @@ def _case(d, conf, spec, pidfile, res):
         inflight = 'arbiter_start_watchers'
     elif arrival == 'early-startup':
         inflight = 'start-up'
+    if conf.get('late_add') and arrival == 'idle':
+        # the set of watchers changed at run time right before the shutdown: one removed, one added and started
+        victim = conf['watchers'][-1]['name']
+        d.call('rm', name=victim, waiting=True, timeout=15)
+        d.call('add', name='late', cmd=live.worker_cmd(dict(KINDS['obedient'], log=d.logdir)), start=True, waiting=True,
+               options={'numprocesses': 2, 'graceful_timeout': 1.0, 'copy_env': True}, timeout=15)
+        res.obs['shutdown_right_after_rm_and_add'] += 1
+        time.sleep(0.15)
     kids = [(p, stt) for p, st, stt in d.children()]
     sock_path = os.path.join(d.dir, 'managed.sock')
     port = None
